@@ -564,6 +564,11 @@ func (sp *subProcess) run(ctx context.Context, out tracing.ITracer) {
 					sp.active.Add(1)
 					defer sp.active.Add(-1)
 
+					// Subscribing before the inner instance is started: whatever it
+					// emits (including its completion) must reach the loop below
+					traces := sp.subTracer.Subscribe()
+					defer sp.subTracer.Unsubscribe(traces)
+
 					if err := sp.startAll(ctx); err != nil {
 						subProcessId := ""
 						if pid, present := sp.element.Id(); present {
@@ -576,8 +581,6 @@ func (sp *subProcess) run(ctx context.Context, out tracing.ITracer) {
 						return
 					}
 
-					traces := sp.subTracer.Subscribe()
-					defer sp.subTracer.Unsubscribe(traces)
 				loop:
 					for {
 						var trace tracing.ITrace
